@@ -30,7 +30,7 @@ CHECKS = {
         note="Trusted: Coq kernel; Rust's sort_by_key is stable (any stable sort gives the same list as the model's insertion sort); string order = scalar-value order = UTF-8 byte order.",
         design='§4 C19'),
     'C01': dict(technique="Coq proofs (structural induction over documents / child lists; renderer refinement for every width) over a hand-written Gallina model of the whole converter pipeline (attr passes, ~60 converters, four stylists, pretty's renderer, post-processing) + generated tables (gen/Tables.v, gen/Kind.v) + differential correspondence of the extracted model with the implementation (document, bytes, counter) on every case + property oracle search",
-        text="Partial proof. Proved for all trees/configs/widths over the model: every accepted output is the stripped rendering of the converter's document and the emitted atoms are atoms of that document in document order, a group being flat or broken as a whole (C01_output_atoms_partial, via the renderer refinement theorems render_atoms/render_lay); optional delimiters appear exactly when the body is broken and a flat body stays on one line (C01_optional_paren_sound); markup is re-emitted as its source lines in order (C01_markup_source_lines). NOT proved: token conservation across all converters and the re-parsed half (C01_full is stated over an abstract parser). The model (total by construction, byte-exact against the implementation) is tied to the code by K2/K5/K7 on every case, and the skeleton oracle (re-parse with typst_syntax, compare trees modulo layout) searches for a failing input. Known findings by class: comments inside equations (F10/F13), block comments sharing a line with list items (F15), empty term (F16), multi-line '@typstyle off' regions (F17), exotic trailing blanks (F18).",
+        text="Partial proof. Proved for all trees/configs/widths over the model: every accepted output is the stripped rendering of the converter's document and the emitted atoms are atoms of that document in document order, a group being flat or broken as a whole (C01_output_atoms_partial, via the renderer refinement theorems render_atoms/render_lay); optional delimiters appear exactly when the body is broken and a flat body stays on one line (C01_optional_paren_sound); markup is re-emitted as its source lines in order (C01_markup_source_lines); the layout stylists conserve what they are handed: the atoms of a flow-based, list-based or plain-list converter's document, whatever flat_alt branch is taken, are the atoms of what was pushed for its children in child order (keyword text, comment document, hash, producer/checker result), with only blanks, line breaks and the list style's own separator and delimiters in between (C01_flow_stylist_conserves, C01_list_stylist_conserves through comment attaching/detaching and the three print loops, C01_plain_stylist_conserves), and the chain printer conserves bodies, operators and comments (C01_chain_printer_conserves, with the side condition shown of every built chain by C01_chain_builder_attaches_after_a_body). NOT proved: that each converter's producer hands every non-trivia child to its stylist, and the re-parsed half (C01_full is stated over an abstract parser). The model (total by construction, byte-exact against the implementation) is tied to the code by K2/K5/K7 on every case, and the skeleton oracle (re-parse with typst_syntax, compare trees modulo layout) searches for a failing input. Known findings by class: comments inside equations (F10/F13), block comments sharing a line with list items (F15), empty term (F16), multi-line '@typstyle off' regions (F17), exotic trailing blanks (F18).",
         note="Trusted: Coq kernel (closed under the global context, no axioms); extraction (ExtrOcamlBasic only) and the OCaml driver; translators gen_kind/gen_tables/gen_cli; the Rust harness with its oracles. Modelled, not verified: typst-syntax (parser: its trees are the model's input), the `pretty` renderer and unicode-width (restated / harvested, compared on every case). K5 and the oracles are sampled (differential testing).",
         design='§4 C01'),
     'C04': dict(technique="Coq proofs (structural induction over documents / child lists; renderer refinement for every width) over a hand-written Gallina model of the whole converter pipeline (attr passes, ~60 converters, four stylists, pretty's renderer, post-processing) + generated tables (gen/Tables.v, gen/Kind.v) + differential correspondence of the extracted model with the implementation (document, bytes, counter) on every case + property oracle search",
